@@ -60,6 +60,7 @@ def model_check(ctx, cases):
             if kind == "seq":
                 k, i = r
                 c = cs[k]
+                i = L.expanded_ops(c)[i][0] if i < len(L.expanded_ops(c)) else len(c["ops"]) - 1
                 ctx.fail("correspondence", "daemon model and implementation differ at op %d (%s) of history %d: implementation calls %s, alive=%s"
                          % (i, c["ops"][i]["op"], c["k"], c["ops"][i]["calls"], c["ops"][i]["alive"]),
                          {"case": c, "op": i})
@@ -188,7 +189,7 @@ def coverage(ctx, cases, stats):
     sc = [c for c in cases if c["kind"] == "sched"]
     sq = [c for c in cases if c["kind"] == "seq"]
     nobs = sum(len(c.get("obs") or []) for c in ex)
-    ticks = [o for c in sq for o in c["ops"] if o["op"] == "tick"]
+    ticks = [o for c in sq for o in c["ops"] if o["op"] in ("tick", "boot")]
     kinds = {}
     for c in sq:
         for o in c["ops"]:
@@ -208,7 +209,7 @@ def coverage(ctx, cases, stats):
                        "minutes 2019-2034, the schedule's own activations and the second before them); schedule-value cases: string / "
                        "list / start-stop-restart map forms and malformed variants; daemon histories: a DAG directory and 14-80 operations "
                        "(ticks with lag and bunching, history changes, suspend, file writes / removals / renames seen by the real watcher, "
-                       "daemon restarts) against the real scheduler.New with a recording client.  distinct = distinct accepted expressions "
+                       "daemon restarts; a stream boots the daemon through the real Scheduler.Start at chosen instants inside a minute) against the real scheduler.New with a recording client.  distinct = distinct accepted expressions "
                        "with observations + distinct daemon histories; non-trivial = expression accepted with >= 1 Next observation, "
                        "history with >= 1 client call")
     ctx.cov["expressions"] = {"total": len(ex), "accepted": sum(1 for c in ex if c["verdict"] == 0),
@@ -221,6 +222,7 @@ def coverage(ctx, cases, stats):
                                   "rejected": sum(1 for c in sc if c["verdict"] == 1), "panic": sum(1 for c in sc if c["verdict"] == 2)}
     ctx.cov["daemon"] = {"histories": len(sq), "ops": kinds, "ticks": len(ticks), "ticks_with_calls": sum(1 for o in ticks if o["calls"]),
                          "calls": sum(len(o["calls"]) for o in ticks), "daemon_deaths": sum(1 for c in sq if any(not o["alive"] for o in c["ops"][1:])),
+                         "boots_through_Scheduler_Start": kinds.get("boot", 0),
                          "watcher_process_crashes": sum(1 for c in sq if c.get("crashed", -1) >= 0),
                          "unsynced_ops": stats.get("unsynced_ops", 0),
                          "monitor_classes": stats.get("monitor_classes", {})}
